@@ -661,14 +661,12 @@ func runC39(c *Ctx) {
 		return nil, false
 	}
 	validFact := func(fn *ssa.Function, b *ssa.BasicBlock, v ssa.Value) bool {
-		sl := DataSlice(fn, v)
 		for _, fact := range FactsAt(b) {
 			cl, isCall := fact.Cond.(*ssa.Call)
 			if !isCall || !fact.Truth || cl.Common().StaticCallee() == nil || cl.Common().StaticCallee().Name() != "ValidPath" {
 				continue
 			}
-			arg := cl.Common().Args[0]
-			if arg == v || sl[arg] {
+			if cl.Common().Args[0] == v { // the very value that is used, not a component of it
 				return true
 			}
 		}
@@ -702,6 +700,36 @@ func runC39(c *Ctx) {
 		}
 		if validFact(fn, b, v) {
 			return true, ""
+		}
+		// a join of safe parts (a validated directory and an entry name from the file system)
+		if cl, isCall := v.(*ssa.Call); isCall && cl.Common().StaticCallee() != nil && cl.Common().StaticCallee().Pkg != nil &&
+			cl.Common().StaticCallee().Pkg.Pkg.Path() == "path" && cl.Common().StaticCallee().Name() == "Join" {
+			if sl, isSl := cl.Common().Args[0].(*ssa.Slice); isSl {
+				if al, isAl := sl.X.(*ssa.Alloc); isAl {
+					all := true
+					nParts := 0
+					for _, ref := range *al.Referrers() {
+						ia, isIA := ref.(*ssa.IndexAddr)
+						if !isIA {
+							continue
+						}
+						for _, r2 := range *ia.Referrers() {
+							if st, isSt := r2.(*ssa.Store); isSt {
+								nParts++
+								if ok, _ := safe(fn, b, st.Val, depth+1); !ok {
+									all = false
+								}
+							}
+						}
+					}
+					if all && nParts > 0 {
+						return true, ""
+					}
+				}
+			}
+		}
+		if cl, isCall := v.(*ssa.Call); isCall && cl.Common().IsInvoke() && cl.Common().Method.Name() == "Name" {
+			return true, "" // an entry name handed out by the file system
 		}
 		sl := DataSlice(fn, v)
 		// a validator's result
